@@ -1935,6 +1935,19 @@ pub fn gen_sct(t: &mut Tape, budget: usize) -> MSct {
             e.buf
         };
     }
+    if t.chance(18) {
+        // extension data that reads like the fields FOLLOWING the extensions (algorithm pair, u16 signature length, signature bytes), with an
+        // extension length that is a multiple of 256 when the budget allows: a decoder that peeks at "extensions length | algorithm" as one
+        // word, or tests only part of the length, mistakes such data for the SCT's own tail
+        let total = if b >= 1200 && t.chance(70) { 256 * (1 + t.below(4)) } else if b >= 60 { 4 + t.below(40) } else { 0 };
+        if total >= 4 {
+            let (h, s) = if t.chance(60) { (4u8, 3u8) } else { gen_sig_alg(t) };
+            let inner = t.below(total - 3);
+            let mut x = vec![h, s, (inner >> 8) as u8, inner as u8];
+            x.extend((0..total - 4).map(|i| 0x30 + (i % 7) as u8));
+            extensions = x;
+        }
+    }
     let mut id = t.bytes(32);
     if t.chance(20) {
         // a log id whose first octets read like an RFC 9162 (CT v2) TransItem: type 3 / 4, then a DER OID (length, 06, length - 2)
